@@ -76,6 +76,27 @@ def run(E: Engine, rep: Report, tier: str) -> dict:
                     bare = _isg5(side, "int(Q_a * Q_b)") is not None
                     rep.check(not bare, "GUARD", f"{f5.short}|layout-capacity-not-a-truncated-float-product", "the capacity is corrected against the filling fractions (not just int(n_traps * max_layout_filling))",
                               f"{f5.short} takes the layout's capacity as `{_shg5(side, 80)}`: products such as 50 * 0.58 = 28.999999999999996 or 90 * 0.7 = 62.99999999999999 truncate to one qubit less than the filling allows, so a register exactly at the maximum filling (and the automatic layout of a valid register) is refused, and some valid device parameter combinations cannot be constructed", E.where(f5, l.node))
+    # ... and a filling met EXACTLY fits ("at most max_layout_filling"): the correction step adds a qubit when
+    #     (q + 1) / n_traps <= filling and removes one only when q / n_traps > filling
+    mlq = DEV + "._max_layout_qubits"
+    if mlq in E.P.functions:
+        from .symutil import branches as _brg5
+
+        fm = E.fn(mlq)
+        rm = _Sg5(E, fm).ret
+        for conds, leaf in _brg5(rm) if rm is not None else []:
+            kind = "inc" if _isg5(leaf, "Q_b + 1") is not None else "dec" if _isg5(leaf, "Q_b + -1") is not None else None
+            if kind is None:
+                continue
+            fcmp = [c for c in conds if (c[0] == "cmp" or (c[0] == "not" and c[1][0] == "cmp")) and _mg5(c, "max_layout_filling")]
+            if kind == "inc":
+                bad = [c for c in fcmp if c[0] == "cmp" and c[1] in ("Lt", "Gt")]
+                rep.check(not bad, "GUARD", "BaseDevice._max_layout_qubits|exact-filling-fits|increment", "one more qubit is allowed when (q + 1) / n_traps <= max_layout_filling",
+                          f"the capacity is raised only under the strict test `{_shg5(bad[0], 100) if bad else ''}`: when (q + 1) / n_traps EQUALS the maximum filling (29 of 50 traps at 0.58) the qubit still fits -- a register exactly at the maximum filling is refused and some valid device parameters cannot be constructed", E.where(fm))
+            else:
+                bad = [c for c in fcmp if c[0] == "not"]
+                rep.check(not bad, "GUARD", "BaseDevice._max_layout_qubits|exact-filling-fits|decrement", "a qubit is removed only when q / n_traps > max_layout_filling",
+                          f"the capacity is lowered under the non-strict test `{_shg5(bad[0], 100) if bad else ''}`: a filling met exactly fits", E.where(fm))
     # the radial check allows for the precision coordinates are kept with: layouts (and the registers defined from them,
     # e.g. by with_automatic_layout) hold coordinates rounded to COORD_PRECISION decimals, which moves a point at the
     # maximum radius outward by up to ~0.7e-6 -- an exact `norm > R` makes the device reject its own automatic layout
